@@ -47,6 +47,9 @@ def deviations(b, multibuf=False):
             what = "ok-where-%s-errs" % ref if g["r"] == 1 else "err-where-%s-ok" % ref
         elif b["kind"] == "disagree-multi" and g.get("nd") != refg.get("nd"):
             what = "doc-count"
+        elif b.get("repr") in ("top8", "other"):
+            # the groups differ ONLY in the Go representation chosen for a number literal (strict equality fails, loose holds)
+            what = "repr:" + b["repr"]
         else:
             what = "value:" + str(b.get("leaf", "?"))
         for a in g["as"]:
